@@ -12,9 +12,11 @@
    k ranges over the five sliver classes; attrs is the sliver's __dict__ (data attributes); field values
    are tokens (Model/Sliver2Kinds.v fval).
 
-   What is NOT true of the code and therefore not claimed (witness replayed on every run):
-   image_ref and image_type are stored as one graph property, so setting either of them alone is a
-   silent no-op (C02_set_get_image_ref_refuted) - C02_set_get excludes exactly these two (single_written).
+   What is NOT true of the code and therefore not claimed (witness replayed on every run): at the
+   SLIVER level image_ref and image_type are one graph property, written only when both are set, so a
+   NodeSliver carrying only one of them loses it in every converter (C02_lone_image_half_lost_refuted);
+   attrs_wf excludes exactly that combination.  At the ELEMENT level this is repaired (c7cf34d): a lone
+   half is completed from the stored pair or refused loudly (C02_lone_image_half), C02_set_get is full strength.
    Documented, not a deviation: a value object with nothing set is encoded as empty text and read back as
    absent (C03's statement; C02_empty_value_reads_absent) - attrs_wf asks for non-empty objects. *)
 From Coq Require Import List String NArith Bool.
@@ -50,6 +52,16 @@ Theorem C02_props_roundtrip : forall k a,
   attrs_wf k a = true -> bind (to_props k a) (from_props k) = Ok a.
 Proof. exact props_roundtrip. Qed.
 Print Assumptions C02_props_roundtrip.
+
+(* (R) is false at the sliver level for ONE combination of settable properties: a NodeSliver that
+   carries image_ref without image_type (or the reverse) comes back without it on every route - the two
+   are one graph property, written only when both are set.  attrs_wf excludes exactly this (the
+   pair set together or not at all).  Witness replayed on the implementation on every run. *)
+Theorem C02_lone_image_half_lost_refuted :
+  bind (to_props KNode w_lone_image) (from_props KNode) = Ok (aset "image_ref" None w_lone_image) /\
+  aset "image_ref" None w_lone_image <> w_lone_image /\ attrs_wf KNode w_lone_image = false.
+Proof. exact lone_image_half_lost. Qed.
+Print Assumptions C02_lone_image_half_lost_refuted.
 
 (* documented (C03): a value object with nothing set is encoded as '' and reads back as absent *)
 Theorem C02_empty_value_reads_absent :
@@ -105,18 +117,28 @@ Theorem C02_graph_under : forall g parent t,
 Proof. exact graph_under. Qed.
 Print Assumptions C02_graph_under.
 
-(* GET AFTER SET, every element class, every settable property, every value the setter accepts and
-   the graph form can carry (value_ok: decidable; it is false exactly for a lone image_ref / image_type,
-   see C02_set_get_image_ref_refuted): reading back returns what the setter stores, which is the
-   argument itself for every setter but set_management_ip (C02_set_get_same). *)
-Theorem C02_set_get : forall k p v d x,
-  settable k p = Some x -> value_ok k p v = true -> readable k d = true ->
+(* GET AFTER SET, every element class, EVERY settable property (l' = the keyword after
+   Node._complete_image_pair: the keyword itself, or - for a lone image_ref / image_type - the pair
+   completed with the stored other half; a node without the other half refuses loudly,
+   C02_lone_image_half): reading back returns what the setter stores. *)
+Theorem C02_set_get : forall k p v d x l',
+  settable k p = Some x ->
+  completed_kvs node_completes_image_pair k [(p, Some v)] d = Ok l' ->
+  kws_ok k l' = true -> values_ok k l' = true -> readable k d = true ->
   exists d', set_property k p (Some v) d = Ok d' /\ get_property k p d' = Ok (stored k p v).
 Proof. exact set_get. Qed.
 Print Assumptions C02_set_get.
 
+(* the simple form for every keyword but the two halves of the pair *)
+Theorem C02_set_get_plain : forall k p v d x,
+  settable k p = Some x -> mem p ["image_ref"; "image_type"]%string = false ->
+  value_ok k p v = true -> readable k d = true ->
+  exists d', set_property k p (Some v) d = Ok d' /\ get_property k p d' = Ok (stored k p v).
+Proof. exact set_get_plain. Qed.
+Print Assumptions C02_set_get_plain.
+
 Theorem C02_set_get_same : forall k p v d x,
-  settable k p = Some x -> stores_argument k p = true ->
+  settable k p = Some x -> mem p ["image_ref"; "image_type"]%string = false -> stores_argument k p = true ->
   value_ok k p v = true -> readable k d = true ->
   exists d', set_property k p (Some v) d = Ok d' /\ get_property k p d' = Ok (Some v).
 Proof. exact set_get_same. Qed.
@@ -125,7 +147,8 @@ Print Assumptions C02_set_get_same.
 (* FRAME: setting p leaves every other settable property as it was (except the stitch_node flag,
    which every write resets: always_written) *)
 Theorem C02_set_frame : forall k p v d x q y,
-  settable k p = Some x -> value_ok k p v = true -> readable k d = true ->
+  settable k p = Some x -> mem p ["image_ref"; "image_type"]%string = false ->
+  value_ok k p v = true -> readable k d = true ->
   settable k q = Some y -> y <> x -> aget y (blank k) = None -> always_written k y = false ->
   exists d', set_property k p (Some v) d = Ok d' /\ get_property k q d' = get_property k q d.
 Proof. exact set_frame. Qed.
@@ -144,9 +167,9 @@ Theorem C02_set_properties_get : forall k l l' d,
 Proof. exact set_properties_get. Qed.
 Print Assumptions C02_set_properties_get.
 
-Theorem C02_no_pair_completion : node_completes_image_pair = false.
-Proof. exact node_completes_false. Qed.
-Print Assumptions C02_no_pair_completion.
+Theorem C02_pair_completion : node_completes_image_pair = true.
+Proof. exact node_completes_true. Qed.
+Print Assumptions C02_pair_completion.
 
 (* the order of the keywords is irrelevant: the same node properties result (for keyword lists that
    need no completion - on the current tree every list: C02_no_pair_completion) *)
@@ -179,14 +202,16 @@ Theorem C02_stitch_node_fold_refuted :
 Proof. exact stitch_fold_refuted. Qed.
 Print Assumptions C02_stitch_node_fold_refuted.
 
-(* a lone half of the image pair is not value_ok: set_property('image_ref', v) is a silent no-op *)
-Theorem C02_set_get_image_ref_refuted :
-  value_ok KNode "image_ref" (FStr (S"img")) = false /\
-  readable KNode w_node_props = true /\
-  exists d', set_property KNode "image_ref" (Some (FStr (S"img"))) w_node_props = Ok d' /\
-             get_property KNode "image_ref" d' = Ok None.
-Proof. exact image_ref_alone_refuted. Qed.
-Print Assumptions C02_set_get_image_ref_refuted.
+(* a lone half on a node without an image is refused loudly (documented precondition); with an image
+   it replaces its half and keeps the other *)
+Theorem C02_lone_image_half :
+  set_property KNode "image_ref" (Some (FStr (S"img"))) w_node_props = Err ExOther /\
+  exists l' d', completed_kvs node_completes_image_pair KNode [("image_ref", Some (FStr (S"img2")))]%string w_node_img_props = Ok l' /\
+    kws_ok KNode l' = true /\ values_ok KNode l' = true /\ readable KNode w_node_img_props = true /\
+    set_property KNode "image_ref" (Some (FStr (S"img2"))) w_node_img_props = Ok d' /\
+    get_property KNode "image_type" d' = Ok (Some (FStr (S"qcow2"))).
+Proof. exact image_ref_alone. Qed.
+Print Assumptions C02_lone_image_half.
 
 (* GET AFTER UNSET, every element class, every property SLIVER_PROPERTY_TO_GRAPH maps to a graph
    property that may be removed: reads the absent value unset_reads, which is None (for a boolean flag
@@ -205,11 +230,11 @@ Theorem C02_unset_get : forall k p d x g,
 Proof. exact unset_get_absent. Qed.
 Print Assumptions C02_unset_get.
 
-(* which settable properties have no unset mapping (their unset is a silent no-op): exactly these -
+(* which settable properties have no unset mapping (their unset is a silent no-op): none any more -
    a forgotten mapping (as `location` was before fix 85687de) changes this list *)
 Theorem C02_unmapped_setters :
   map unmapped_setters [KNode; KComponent; KService; KInterface; KLink] =
-  [["image_type"; "stitch_node"]; ["stitch_node"]; ["stitch_node"]; ["stitch_node"]; ["stitch_node"]]%string.
+  [[]; []; []; []; []].
 Proof. exact unmapped_exact. Qed.
 Print Assumptions C02_unmapped_setters.
 
